@@ -1,5 +1,5 @@
 ---- MODULE MC_q_mod ----
 EXTENDS MCOFWire
-TheCases == Modified
+TheCases == Modified \cup NXModified
 TheAround == AroundOne
 ====
